@@ -36,3 +36,17 @@ Theorem C20_machine_bad_index_crashes_at_once :
     wcrash (fst (block w p)) <> None /\ wk (fst (block w p)) = wk w /\ wedges (fst (block w p)) = wedges w.
 Proof. exact machine_bad_index_crashes. Qed.
 Print Assumptions C20_machine_bad_index_crashes_at_once.
+
+(* every resume callback registered with the kernel names an existing process, in every reachable world of every
+   configuration, and so does every callback a kernel pop hands out: the model's refusal to resume an index beyond the
+   process table (run_cb) is dead code, and no run ever executes the table's default record
+   (theories/Factory/FactoryRef.v, lifted through every process block) *)
+From FV Require FactoryRef.
+Theorem C20_resume_callbacks_name_existing_processes :
+  forall nodes edges order n,
+  let w := FactoryInv.iter_fstep n (Factory.mk_world nodes edges order) in
+  (forall e p, In (Kernel.CbResume p) (Kernel.e_cbs (Kernel.get_ev (World.wk w) e)) -> (p < length (World.wprocs w))%nat) /\
+  (forall k e cbs, Kernel.pop (World.wk w) = Some (k, e, cbs) ->
+     forall p, In (Kernel.CbResume p) cbs -> (p < length (World.wprocs w))%nat).
+Proof. exact FactoryRef.callbacks_name_existing_processes. Qed.
+Print Assumptions C20_resume_callbacks_name_existing_processes.
